@@ -153,6 +153,33 @@ fn locals_add_locals_batch() {
     std::mem::forget(locals);
 }
 
+/// C14: add_locals with a run of two EQUAL types that continues (or not) the last declared group: both new
+/// locals are declared, with that type, at the two next indices.  (A narrower companion of
+/// locals_add_locals_batch: fewer symbolic branches, so that a re-implementation of the batch path stays decidable.)
+// @harness props=C14 tier=quick timeout=900
+#[kani::proof]
+#[kani::stub(alloc::fmt::format, crate::kh::no_format)]
+#[kani::unwind(6)]
+fn locals_add_locals_equal_run() {
+    let c: u32 = kani::any();
+    kani::assume(c >= 1 && c <= 1000);
+    let last_ty = if kani::any() { DataType::I32 } else { DataType::F64 };
+    let mut locals = vec![(c, last_ty)];
+    let num_params: usize = kani::any();
+    kani::assume(num_params <= 8);
+    let mut num_locals = c;
+    let t = if kani::any() { DataType::I32 } else { DataType::I64 };
+    let batch = [t, t];
+    add_locals(&batch, num_params, &mut num_locals, &mut locals);
+    assert!(num_locals == c + 2, "num_locals out of step after a batch");
+    assert!(total(&locals) == c + 2, "C14: the batch declared a different number of locals than it was given");
+    assert!(type_at(&locals, c) == Some(t) && type_at(&locals, c + 1) == Some(t), "C14: a batch local does not have the requested type at its index");
+    assert!(type_at(&locals, c - 1) == Some(last_ty), "an existing local changed");
+    kani::cover!(t == last_ty, "run continues the last declared group");
+    kani::cover!(t != last_ty, "run starts a new group");
+    std::mem::forget(locals);
+}
+
 fn two_params() -> [DataType; 2] {
     [any_dt(), any_dt()]
 }
